@@ -38,7 +38,6 @@ def scan_global_state(root="/repo/src"):
 
 class C19(FrpProp):
     pid = "C19"
-    category = "translation_validation"
     tag = "c19"
     default_mode = "frp-multi"
     profile = Profile(w=W(sloop=2, cloop=2, switch_s=2, switch_c=2, defer=2, split=1, router=1), p_mem=0.3, n_txn=(3, 8),
@@ -48,7 +47,9 @@ class C19(FrpProp):
             "transactions, so one context's transaction is open while the other runs) and run with one OS thread per context; each "
             "context's outputs and hidden accounting (node count, queue lengths, depth) must equal, line by line, those of the same "
             "script run alone, and equal the specification; plus a source scan for global state. Non-trivial = some listener call.")
-    level_text = ("Frame property by construction of the model (every operation acts on one context's state only) + measured tie: "
+    level_text = ("Theorem C19_frame over Model/Contexts.v (one specification state per context): in any interleaving on any number of "
+                  "contexts each context goes through exactly the states and observations of its own operations run alone, also inside "
+                  "another context's open transaction. That the implementation's state IS per context is the measured tie: "
                   "interleaved and threaded runs equal the solo runs bit-exactly, including memory accounting; static scan finds no "
                   "global state. PARTIAL: real parallel execution (memory ordering, allocator) is runtime behaviour no executable "
                   "Gallina model exhibits.")
